@@ -150,6 +150,10 @@ def lean_line(op, pi, pt):
         return "\t".join(["removewitheffected", k, enc_rules(op[3])])
     if name == "values":
         return "\t".join(["values", k, str(op[3])])
+    if name == "removeread":
+        return "\t".join(["removeread", k, pis, str(op[3]), enc_list([enc_str(v) for v in (op[4] or [])])])
+    if name == "updateread":
+        return "\t".join(["updateread", k, pts, op[3]])
     raise ValueError(name)
 
 
@@ -207,6 +211,16 @@ def impl_call(e, op, form):
         return e.enforce(*op[3])
     if name == "getfiltered":
         return cp(e.get_filtered_named_grouping_policy(ptype, op[3], *op[4]) if G else e.get_filtered_named_policy(ptype, op[3], *op[4]))
+    if name == "removeread":
+        # the batch argument is the very object a read returned (op[4] None: get_policy, else get_filtered_policy)
+        if G:
+            got = e.get_named_grouping_policy(ptype) if op[4] is None else e.get_filtered_named_grouping_policy(ptype, op[3], *op[4])
+            return e.remove_named_grouping_policies(ptype, got)
+        got = e.get_named_policy(ptype) if op[4] is None else e.get_filtered_named_policy(ptype, op[3], *op[4])
+        return e.remove_named_policies(ptype, got)
+    if name == "updateread":
+        got = e.get_named_policy(ptype)
+        return e.update_named_policies(ptype, got, [list(r[:-1]) + [r[-1] + op[3]] for r in got])
     raise ValueError(name)
 
 
@@ -243,15 +257,21 @@ def unit_call(m, op):
         return cp(m.remove_policies_with_effected(sec, ptype, cp(op[3])))
     if name == "values":
         return m.get_values_for_field_in_policy(sec, ptype, op[3])
+    if name == "removeread":
+        got = m.get_policy(sec, ptype) if op[4] is None else m.get_filtered_policy(sec, ptype, op[3], *op[4])
+        return m.remove_policies(sec, ptype, got)
+    if name == "updateread":
+        got = m.get_policy(sec, ptype)
+        return m.update_policies(sec, ptype, got, [list(r[:-1]) + [r[-1] + op[3]] for r in got])
     raise ValueError(name)
 
 
 # ------------------------------------------------------------------ histories
 
-MUTATORS = ("add", "addmany", "remove", "removemany", "removefiltered", "update", "updatemany", "removewitheffected")
+MUTATORS = ("add", "addmany", "remove", "removemany", "removefiltered", "update", "updatemany", "removewitheffected", "removeread", "updateread")
 
 
-def op_alphabet(sec, ptype, rules, with_update=True):
+def op_alphabet(sec, ptype, rules, with_update=True, read_fed=False):
     ops = []
     for r in rules:
         ops.append(("add", sec, ptype, r))
@@ -276,6 +296,13 @@ def op_alphabet(sec, ptype, rules, with_update=True):
         ops.append(("updatemany", sec, ptype, [rules[0], rules[1]], [rules[2], rules[2]]))
         ops.append(("updatemany", sec, ptype, [rules[0]], [rules[0][:-1] + ["other"]]))
         ops.append(("updatemany", sec, ptype, [rules[0], rules[1]], [rules[2]]))
+    if read_fed:
+        # batch calls whose argument is the object returned by a read ("remove everything I can see")
+        ops.append(("removeread", sec, ptype, 0, None))
+        for idx, fv in [(0, []), (0, [""]), (0, [rules[0][0]]), (1, [rules[0][1]]), (0, ["nobody"])]:
+            ops.append(("removeread", sec, ptype, idx, fv))
+        if with_update and sec == "p":
+            ops.append(("updateread", sec, ptype, "x"))
     return ops, flts
 
 
